@@ -24,6 +24,7 @@ def run(ctx):
     ctx.each(r07d, ctx, repo)
     ctx.each(informational, ctx, repo)
     ctx.each(r07e, ctx, repo)
+    ctx.each(r07g, ctx, repo)
     ctx.each(flowalg.accumulator_rule, ctx, repo, "R07f", [("model", "Characteristic.update"), ("model", "Characteristic.vals")], 4, "the characteristic sums")
 
 
@@ -199,3 +200,106 @@ def r07e(ctx, repo):
             ok = any(f.startswith("%s.y_factor[" % recv) for f in facs) and ("%s.meta_y_factor" % recv) in facs
             ctx.check(ok, "R07e", fi, enclosing_stmt(c), "`%s` scaled by y_factor and meta_y_factor" % ast.unparse(c)[:50], "the initialisation value `%s` is not multiplied by both calibration factors of `%s`: the initial state does not reproduce the calibrated databook quantity" % (ast.unparse(c)[:60], recv))
     ctx.require(n >= 2, "R07e: fewer interpolate() sites in initialize_compartments (%d) than confirmed (2)" % n)
+
+
+def _expand_local(text, name, env):
+    import re
+
+    if name in env:
+        return re.sub(r"\b%s\b" % name, ast.unparse(env[name]), text)
+    return text
+
+
+def r07g(ctx, repo):
+    from ..core import algebra as A
+    from ..core import boolx as B
+
+    ctx.rule("R07g", "the initial linear system of Population.initialize_compartments: one row per databook quantity with setup weight > 0 of this population type; right-hand side = value at the start year x population factor x all-population factor (x the same product of the denominator for a fraction); row entries 1 for exactly the member compartments (the quantity's own column for a compartment); unknowns = all compartments except sources and sinks, indexed by one enumeration that is also used to write the solution back; residual = sum((A x - b)^2); per-row mismatch |A x - b| > tolerance; solution component i goes to compartment i as max(0, x_i)")
+    fi = repo.func("model", "Population.initialize_compartments")
+    me = K.self_name(fi)
+    ps, fw, t0 = fi.params[1], fi.params[2], fi.params[3]
+
+    def one(name):
+        a = [s for s in own_nodes(fi.node) if isinstance(s, ast.Assign) and len(s.targets) == 1 and ast.unparse(s.targets[0]) == name]
+        return a[0] if len(a) == 1 else None
+
+    for nm, tab in (("characs_to_use", "characs"), ("comps_to_use", "comps")):
+        a = one(nm)
+        want = "%s.%s.index[(%s.%s['setup weight'] > 0) & (%s.%s['population type'] == %s.type)]" % (fw, tab, fw, tab, fw, tab, me)
+        alt = "%s.%s.index[(%s.%s['population type'] == %s.type) & (%s.%s['setup weight'] > 0)]" % (fw, tab, fw, tab, me, fw, tab)
+        ctx.check(a is not None and ast.unparse(a.value) in (want, alt), "R07g", fi, a if a is not None else fi.node, "%s = entries with setup weight > 0 of this population type" % nm, "`%s` does not select exactly the %s with setup weight > 0 and this population's type: a databook quantity meant for initialisation is ignored (or one of another type is used), so the initial state does not reproduce the databook" % (norm(a)[:90] if a is not None else nm, tab), stmt_text="select:%s" % nm)
+    bo = one("b_objs")
+    ok = bo is not None and ast.unparse(bo.value) == "[%s.charac_lookup[x] for x in characs_to_use] + [%s.comp_lookup[x] for x in comps_to_use]" % (me, me)
+    ctx.check(ok, "R07g", fi, bo if bo is not None else fi.node, "rows = the selected characteristics and compartments", "b_objs is not the selected characteristics followed by the selected compartments", stmt_text="rows")
+    cs = one("comps")
+    ok = cs is not None and isinstance(cs.value, ast.ListComp) and ast.unparse(cs.value.generators[0].iter) == "%s.comps" % me and len(cs.value.generators[0].ifs) == 1 and B.equivalent(B.of(cs.value.generators[0].ifs[0]), B.parse_cond("not (isinstance(c, SourceCompartment) or isinstance(c, SinkCompartment))".replace("c,", ast.unparse(cs.value.generators[0].target) + ",")))
+    ctx.check(ok, "R07g", fi, cs if cs is not None else fi.node, "unknowns = every compartment except sources and sinks", "the unknowns of the initial system are not all compartments except sources and sinks", stmt_text="unknowns")
+    ci = one("comp_indices")
+    ok = ci is not None and ast.unparse(ci.value) == "{c.name: i for i, c in enumerate(comps)}"
+    ctx.check(ok, "R07g", fi, ci if ci is not None else fi.node, "column index = position in the list of unknowns", "comp_indices is not the position of each compartment in `comps`: the solution is written back to other compartments than the ones the rows referred to", stmt_text="columns")
+    lp = [l for l in own_nodes(fi.node) if isinstance(l, ast.For) and ast.unparse(l.iter) == "enumerate(b_objs)" and isinstance(l.target, ast.Tuple)]
+    ctx.require(len(lp) == 1, "R07g: the loop over enumerate(b_objs) was not found")
+    i, obj = (ast.unparse(x) for x in lp[0].target.elts)
+    env = A.single_assign_env(fi.node, own_nodes)
+    bset = [s for s in ast.walk(lp[0]) if isinstance(s, ast.Assign) and ast.unparse(s.targets[0]) == "b[%s]" % i]
+    want = "%s.pars[%s.name].interpolate(%s, pop_name=%s.name)[0] * %s.pars[%s.name].y_factor[%s.name] * %s.pars[%s.name].meta_y_factor" % (ps, obj, t0, me, ps, obj, me, ps, obj)
+    ok = len(bset) == 1 and not guards_of(bset[0], stop=lp[0])
+    if ok:
+        try:
+            ok = A.poly(A.parse(_expand_local(ast.unparse(bset[0].value), "par", env))) == A.poly(A.parse(want))
+        except A.NotPolynomial:
+            ok = False
+    ctx.check(ok, "R07g", fi, bset[0] if bset else lp[0], "b[i] = databook value x population factor x all-population factor", "`%s` is not the databook value at the start year times y_factor[pop] times meta_y_factor" % (norm(bset[0])[:90] if bset else "b[i]"), stmt_text="rhs")
+    bmul = [s for s in ast.walk(lp[0]) if isinstance(s, ast.AugAssign) and ast.unparse(s.target) == "b[%s]" % i]
+    want = want.replace("%s.name" % obj, "%s.denominator.name" % obj)
+    ok = len(bmul) == 1 and isinstance(bmul[0].op, ast.Mult) and B.equivalent(B.cond(guards_of(bmul[0], stop=lp[0])), B.parse_cond("isinstance(%s, Characteristic) and not (%s.denominator is None)" % (obj, obj)))
+    if ok:
+        try:
+            ok = A.poly(A.parse(_expand_local(ast.unparse(bmul[0].value), "denom_par", env))) == A.poly(A.parse(want))
+        except A.NotPolynomial:
+            ok = False
+    ctx.check(ok, "R07g", fi, bmul[0] if bmul else lp[0], "fractions are multiplied by their denominator's value and factors", "the right-hand side of a fraction is not multiplied (exactly when the characteristic has a denominator) by the denominator's databook value times its calibration factors", stmt_text="rhs-denominator")
+    ones = [s for s in ast.walk(lp[0]) if isinstance(s, ast.Assign) and isinstance(s.targets[0], ast.Subscript) and ast.unparse(s.targets[0].value) == "A"]
+    kinds = {}
+    for s in ones:
+        idx = ast.unparse(s.targets[0].slice)
+        g = B.cond(guards_of(s, stop=lp[0]))
+        inner = [l for l in K.enclosing_loops(s) if l is not lp[0] and any(x is l for x in ast.walk(lp[0]))]
+        if inner and ast.unparse(inner[0].iter) == "%s.get_included_comps()" % obj and idx == "(%s, comp_indices[%s.name])" % (i, ast.unparse(inner[0].target)):
+            kinds["charac"] = ast.unparse(s.value) in ("1.0", "1") and B.equivalent(g, B.parse_cond("isinstance(%s, Characteristic)" % obj))
+        elif idx == "(%s, comp_indices[%s.name])" % (i, obj):
+            kinds["comp"] = ast.unparse(s.value) in ("1.0", "1") and B.equivalent(g, B.parse_cond("not isinstance(%s, Characteristic)" % obj))
+        else:
+            kinds["other:" + idx] = False
+    ctx.check(kinds == {"charac": True, "comp": True}, "R07g", fi, ones[0] if ones else lp[0], "row entries: 1 for each member compartment / the compartment's own column", "the rows of the initial system are not filled with 1 for exactly the member compartments of a characteristic (get_included_comps) or the own column of a compartment: %s" % kinds, stmt_text="matrix")
+    x = one("x")
+    ok = x is not None and ast.unparse(x.value).startswith("np.linalg.lstsq(A, b.ravel()") and "[0]" in ast.unparse(x.value)
+    ctx.check(ok, "R07g", fi, x if x is not None else fi.node, "x = least-squares solution of A x = b", "x is not the least-squares solution of A x = b", stmt_text="solve")
+    pr, rs = one("proposed"), one("residual")
+    ok = pr is not None and ast.unparse(pr.value) in ("np.matmul(A, x)", "A @ x", "A.dot(x)") and rs is not None
+    if ok:
+        try:
+            ok = isinstance(rs.value, ast.Call) and ast.unparse(rs.value.func) in ("np.sum", "sum") and A.poly(rs.value.args[0]) == A.poly(A.parse("(proposed - b) ** 2"))
+        except A.NotPolynomial:
+            ok = False
+    ctx.check(ok, "R07g", fi, rs if rs is not None else fi.node, "residual = sum((A x - b)^2)", "the global residual is not sum((A x - b)**2)", stmt_text="residual")
+    flag = [s for s in own_nodes(fi.node) if isinstance(s, ast.Assign) and ast.unparse(s.targets[0]) == "characteristic_tolerence_failed" and ast.unparse(s.value) == "True"]
+    ok = len(flag) == 1
+    if ok:
+        g = guards_of(flag[0], stop=K.enclosing_loops(flag[0])[0] if K.enclosing_loops(flag[0]) else None)
+        ok = len(g) == 1 and g[0][1] and isinstance(g[0][0], ast.Compare) and isinstance(g[0][0].ops[0], ast.Gt) and ast.unparse(g[0][0].comparators[0]) == "model_settings['tolerance']"
+        if ok:
+            try:
+                j = ast.unparse(K.enclosing_loops(flag[0])[0].target)
+                inner = g[0][0].left
+                ok = isinstance(inner, ast.Call) and ast.unparse(inner.func) in ("abs", "np.abs") and (A.poly(inner.args[0]) == A.poly(A.parse("proposed[%s] - b[%s]" % (j, j))) or A.poly(inner.args[0]) == A.poly(A.parse("b[%s] - proposed[%s]" % (j, j))))
+            except A.NotPolynomial:
+                ok = False
+    ctx.check(ok, "R07g", fi, flag[0] if flag else fi.node, "per-quantity mismatch: |A x - b|_i > tolerance", "the per-quantity mismatch flag is not set exactly when abs(proposed[i] - b[i]) > model_settings['tolerance']", stmt_text="mismatch")
+    wb = [s for s in own_nodes(fi.node) if isinstance(s, ast.Assign) and isinstance(s.targets[0], ast.Subscript) and ast.unparse(s.targets[0].slice) == "0" and K.enclosing_loops(s) and ast.unparse(K.enclosing_loops(s)[0].iter) == "enumerate(comps)"]
+    ok = len(wb) == 1
+    if ok:
+        l = K.enclosing_loops(wb[0])[0]
+        j, c = (ast.unparse(e) for e in l.target.elts)
+        ok = ast.unparse(wb[0].targets[0].value) == c and ast.unparse(wb[0].value) in ("max(0.0, x[%s])" % j, "max(0, x[%s])" % j, "max(x[%s], 0.0)" % j, "max(x[%s], 0)" % j) and not guards_of(wb[0], stop=l)
+    ctx.check(ok, "R07g", fi, wb[0] if wb else fi.node, "compartment i starts at max(0, x_i)", "the solution is not written back as `c[0] = max(0.0, x[i])` for (i, c) in enumerate(comps): compartments receive another compartment's size", stmt_text="write-back")
